@@ -1,4 +1,4 @@
-// FAMILY-PENDING: C30 (marker enabled once it compiles)
+// FAMILY: C30
 //! C30: the schema a query reports describes the rows it returns.
 //! Case  = the sqlgen case (prop C30: sql, plan JSON, tables, cat, cfg, tags) + "names": expected output names where the
 //!         binder's naming rule is exactly specifiable (alias of the leftmost SELECT list; null = unspecified).
@@ -57,8 +57,22 @@ pub fn run_case30(case: &Value) -> Value {
     })
 }
 
+/// raw stream: type-blind grammar statements of family C29 over its fixed tables, run in a supervised child process
+/// (no plan JSON, so only the engine-internal comparison applies): {"kind":"raw","setup":"std","sql":..}
+fn run_raw(pool: &mut crate::fams::fam_c29::Pool, c: &Value) -> Value {
+    let (mut i, alive) = pool.run_phase(c["setup"].as_str().unwrap_or("std"), c["sql"].as_str().unwrap_or(""), "schema");
+    if !alive { pool.kill(); }
+    if i.get("status").is_none() { i["status"] = json!(if i["outcome"] == "panic" { "panic" } else { "died" }); }
+    i
+}
+
 pub fn main(o: &Opts) {
-    if let Some(p) = &o.replay { for c in replay_cases(p) { let i = run_case30(&c); emit(c, i); } return; }
+    let mut pool = crate::fams::fam_c29::Pool::new(10_000);
+    if let Some(p) = &o.replay {
+        for c in replay_cases(p) { let i = if c["kind"] == "raw" { run_raw(&mut pool, &c) } else { run_case30(&c) }; emit(c, i); }
+        pool.kill();
+        return;
+    }
     let gopts = GenOpts::from_opts(o, "filter,case,join,agg,distinct,setop,cte,values,subquery,sort_limit");
     let copts = CatOpts::from_opts(o);
     let cfgs = cfgs_from_opts(o, "memb,mem1");
@@ -66,6 +80,12 @@ pub fn main(o: &Opts) {
     let mut r = Rng::new(o.seed ^ 0xC30);
     let mut cat = gen_catalog(&mut r, &copts);
     for n in 0..o.cases {
+        if n % 4 == 3 {
+            let c = json!({"kind":"raw","setup":"std","tags":["s:raw"],"sql": crate::fams::fam_c29::gen_tame(&mut r)});
+            let i = run_raw(&mut pool, &c);
+            emit(c, i);
+            continue;
+        }
         if n % per_cat == 0 { cat = gen_catalog(&mut r, &copts); }
         let mut qr = r.fork();
         let mut g = Gen::new(&mut qr, &cat, &gopts).generate(n);
@@ -78,4 +98,5 @@ pub fn main(o: &Opts) {
         let imp = run_case30(&case);
         emit(case, imp);
     }
+    pool.kill();
 }
